@@ -218,7 +218,9 @@ static QByteArray generateHmac(QCryptographicHash::Algorithm algorithm, const QB
     QCryptographicHash hasher(algorithm);
 
     const int B = 64;
-    QByteArray kpad = key + QByteArray(B - key.size(), 0);
+    // keys longer than the block size are hashed first (RFC 2104, section 2)
+    QByteArray kpad = key.size() > B ? QCryptographicHash::hash(key, algorithm) : key;
+    kpad += QByteArray(B - kpad.size(), 0);
 
     QByteArray ba;
     for (int i = 0; i < B; ++i) {
